@@ -108,32 +108,94 @@ def install_run_counter(on_run_done=None) -> None:
 
 
 # --------------------------------------------------------------------------- what is sampled
+_CONTAINERS = None
+
+
+def _is_container(v) -> bool:
+    global _CONTAINERS
+    if _CONTAINERS is None:
+        import collections
+        import weakref
+
+        _CONTAINERS = (dict, list, set, frozenset, collections.deque, weakref.WeakSet, weakref.WeakValueDictionary,
+                       weakref.WeakKeyDictionary)
+    return isinstance(v, _CONTAINERS)
+
+
+def _size(v) -> int:
+    """Entries of a container plus the entries of containers directly inside it (dict of lists, list of sets, ...)."""
+    for _ in range(3):
+        try:
+            inner = list(v.values()) if hasattr(v, "values") and callable(getattr(v, "values", None)) and not isinstance(v, (list, set, frozenset)) else list(v)
+            return len(inner) + sum(len(x) for x in inner if _is_container(x))
+        except RuntimeError:      # mutated by another thread during the listing: repeat
+            continue
+    return -1
+
+
 def registry_sizes() -> dict:
+    """Sizes of every process-wide table of the package, DISCOVERED rather than named: every container bound at module
+    level or at class level anywhere under ``semantiva.`` (plus unbounded functools caches found there), and the logging
+    tables.  Nothing here depends on a private name of the repository, so a rename cannot blind the monitor and a registry
+    added by a change is watched from the start.  The component registry is taken from its public accessor."""
     from semantiva.core.semantiva_component import get_component_registry
-    from semantiva.execution.component_registry import ExecutionComponentRegistry as ECR
-    from semantiva.registry import plugin_registry
-    from semantiva.registry.name_resolver_registry import NameResolverRegistry
-    from semantiva.registry.parameter_resolver_registry import ParameterResolverRegistry
-    from semantiva.registry.processor_registry import ProcessorRegistry as PR
 
     reg = get_component_registry()
     lg = logging.getLogger("Semantiva")
     loggers = [x for x in logging.root.manager.loggerDict.values() if isinstance(x, logging.Logger)]
-    return {
+    out = {
         "component_registry": sum(len(v) for v in reg.values()),
         "component_registry_categories": len(reg),
-        "processor_registry": len(PR._processors),
-        "processor_registry_modules": len(PR._registered_modules),
-        "processor_registry_module_history": len(PR._module_history),
-        "name_resolvers": len(NameResolverRegistry._resolvers),
-        "parameter_resolvers": len(ParameterResolverRegistry._resolvers),
-        "parameter_resolver_builtin_names": len(ParameterResolverRegistry._builtin_names),
-        "loaded_extensions": len(plugin_registry._LOADED_EXTENSIONS),
-        "execution_components": len(ECR._orchestrators) + len(ECR._executors) + len(ECR._transports),
         "semantiva_logger_handlers": len(lg.handlers) + len(lg.filters),
         "logging_loggers": len(loggers),
         "logging_handlers_total": len(logging.root.handlers) + sum(len(x.handlers) for x in loggers),
     }
+    try:
+        import atexit
+
+        out["atexit_callbacks"] = atexit._ncallbacks()
+    except Exception:
+        pass
+    skip = {id(reg)}
+    seen = set()
+
+    def note(label, v):
+        if id(v) in skip or id(v) in seen:
+            return
+        seen.add(id(v))
+        if _is_container(v):
+            out[label] = _size(v)
+        else:
+            ci = getattr(v, "cache_info", None)      # functools.lru_cache / cache wrappers: only unbounded ones can grow for ever
+            if callable(ci):
+                try:
+                    info = ci()
+                    if info.maxsize is None:
+                        out[label + "<cache>"] = info.currsize
+                except Exception:
+                    pass
+
+    for modname in sorted(sys.modules):
+        if not (modname == "semantiva" or modname.startswith("semantiva.")):
+            continue
+        mod = sys.modules.get(modname)
+        if mod is None:
+            continue
+        for name, val in sorted(vars(mod).items(), key=lambda kv: kv[0]):
+            if name.startswith("__"):
+                continue
+            if isinstance(val, type):
+                if getattr(val, "__module__", None) != modname:
+                    continue
+                for an, av in sorted(vars(val).items(), key=lambda kv: kv[0]):
+                    if an.startswith("__") or an == "_abc_impl":
+                        continue
+                    if isinstance(av, (staticmethod, classmethod)):
+                        av = av.__func__
+                    note(f"{modname}.{val.__qualname__}.{an}", av)
+            else:
+                note(f"{modname}.{name}", val)
+    return out
 
 
 def component_registry_by_factory() -> dict:
@@ -157,11 +219,31 @@ def _transports(objs) -> list:
     return [o for o in objs if InMemorySemantivaTransport in type(o).__mro__]
 
 
+def channel_entries(t) -> list:
+    """[(entry, deque, parts)] for every channel of an in-memory transport, found STRUCTURALLY: any dict held by the
+    transport whose values are (or contain, as tuple members / attributes) a deque.  No private name is used."""
+    import collections
+
+    out = []
+    for v in list(vars(t).values()):
+        if not isinstance(v, dict):
+            continue
+        for ent in list(v.values()):
+            if isinstance(ent, collections.deque):
+                out.append((ent, ent, [ent]))
+                continue
+            parts = list(ent) if isinstance(ent, (tuple, list)) else list(vars(ent).values()) if hasattr(ent, "__dict__") else []
+            dq = next((x for x in parts if isinstance(x, collections.deque)), None)
+            if dq is not None:
+                out.append((ent, dq, parts))
+    return out
+
+
 def transport_stats(objs) -> dict:
     ts = _transports(objs)
     ch = msgs = 0
     for t in ts:
-        for q, _lock in list(t._queues.values()):
+        for _ent, q, _parts in channel_entries(t):
             ch += 1
             msgs += len(q)
     return {"live_transports": len(ts), "channels": ch, "queued_messages": msgs}
@@ -286,17 +368,18 @@ class Monitor:
         old_ts = [t for t in _transports(objs) if id(t) in self.old_transport_ids and id(t) not in newset]
         msgs = []
         for t in old_ts:
-            for q, _lock in list(t._queues.values()):
+            for _ent, q, _parts in channel_entries(t):
                 msgs.extend(q)
         roots["transport_messages"] = {"messages_new": sum(1 for m in msgs if id(m) in newset),
                                        "objects": closure(msgs, "transport_messages")}
         tables = []
+        entry_ids = set()
         for t in old_ts:
-            entries = list(t._queues.values())
-            tables.extend(entries)
-            for q, lock in entries:
-                tables.extend((q, lock))
-        roots["transport_channel_table"] = {"entries_new": sum(1 for v in tables if isinstance(v, tuple) and id(v) in newset),
+            for ent, _q, parts in channel_entries(t):
+                entry_ids.add(id(ent))
+                tables.append(ent)
+                tables.extend(parts)
+        roots["transport_channel_table"] = {"entries_new": sum(1 for v in tables if id(v) in entry_ids and id(v) in newset),
                                             "objects": closure(tables, "transport_channel_table")}
         # new weak references follow their referent (subclass lists / ABC caches of old base classes)
         followed: dict = {}
